@@ -169,7 +169,7 @@ func Run(c *hx.Ctx) {
 	for _, p := range []struct {
 		name string
 		run  func(*hx.Ctx)
-	}{{"bolt", runBolt}, {"dubbo", runDubbo}, {"thrift", runThrift}, {"tars", runTars}} {
+	}{{"bolt", runBolt}, {"dubbo", runDubbo}, {"thrift", runThrift}, {"tars", runTars}, {"uri", runURI}} {
 		if only == "" || only == p.name {
 			p.run(c)
 		}
